@@ -518,4 +518,308 @@ VARIANTS = [
       "        cdb = {key: kwargs[key] for key in kwargs.keys()}",
       "        assert isinstance(kwargs, dict), \"keyword arguments\"\n        cdb = {key: kwargs[key] for key in kwargs.keys()}", expect="silent",
       note="an assert that only states an invariant: the -O pass runs and finds nothing"),
+    V("twin-private-attributes-renamed", ["C01", "C03", "C05", "C07", "C09", "C13", "C14", "C15", "C16"], P + "scsi_command.py",
+      "        return self._cdb\n", "        return self._cdb_buffer\n", expect="silent",
+      more=[(P + "scsi_command.py", "        self._cdb = value", "        self._cdb_buffer = value"),
+            (P + "scsi_command.py", "        return self._dataout\n", "        return self._out\n"),
+            (P + "scsi_command.py", "        self._dataout = value", "        self._out = value"),
+            (P + "scsi_command.py", "        return self._datain\n", "        return self._in\n"),
+            (P + "scsi_command.py", "        self._datain = value", "        self._in = value"),
+            (P + "scsi_command.py", "        return self._result\n", "        return self._res\n"),
+            (P + "scsi_command.py", "        self._result = value", "        self._res = value"),
+            (P + "scsi_command.py", "        return self._sense\n", "        return self._sns\n"),
+            (P + "scsi_command.py", "        self._sense = value", "        self._sns = value"),
+            (P + "scsi_command.py", "        return self._raw_sense_data\n", "        return self._raw\n"),
+            (P + "scsi_command.py", "        self._raw_sense_data = value", "        self._raw = value")],
+      note="where the command keeps its buffers is private: every check reads them through the public properties"),
+    V("c11-regex-nested-quantifier", ["C11"], P + "scsi_cdb_persistentreservein.py",
+      '                (_r["iscsi_name"], _r["iscsi_initiator_session_id"]) = _full_str.split(\n                    ",i,0x"\n                )',
+      '                import re\n                _m = re.match(r"((?:\\w+-?)+),i,0x([0-9A-Fa-f]+)$", _full_str)\n'
+      '                if _m is None:\n                    raise ValueError("Invalid iSCSI TransportID")\n'
+      '                (_r["iscsi_name"], _r["iscsi_initiator_session_id"]) = _m.groups()', rule="regex-work-linear"),
+    V("c11-regex-polynomial", ["C11"], P + "scsi_cdb_persistentreservein.py",
+      '                (_r["iscsi_name"], _r["iscsi_initiator_session_id"]) = _full_str.split(\n                    ",i,0x"\n                )',
+      '                import re\n                _m = re.match(r"\\s*(.*)\\s*,i,0x([0-9A-Fa-f]+)$", _full_str)\n'
+      '                if _m is None:\n                    raise ValueError("Invalid iSCSI TransportID")\n'
+      '                (_r["iscsi_name"], _r["iscsi_initiator_session_id"]) = _m.groups()', rule="regex-work-linear"),
+    V("c11-twin-regex-linear", ["C11"], P + "scsi_cdb_persistentreservein.py",
+      '                (_r["iscsi_name"], _r["iscsi_initiator_session_id"]) = _full_str.split(\n                    ",i,0x"\n                )',
+      '                import re\n                _m = re.match(r"([^,]*),i,0x([0-9A-Fa-f]*)$", _full_str)\n'
+      '                if _m is None:\n                    raise ValueError("Invalid iSCSI TransportID")\n'
+      '                (_r["iscsi_name"], _r["iscsi_initiator_session_id"]) = _m.groups()', expect="silent",
+      note="an unambiguous expression: linear work"),
+    V("c15-twin-inode-with-device-number", ["C15"], P + "scsi_device.py",
+      "    return os.stat(file).st_ino", "    st = os.stat(file)\n    return (st.st_dev, st.st_ino)", expect="silent",
+      note="identity = (device number, inode number): still unequal whenever the inode number differs"),
+    V("c15-inode-packed-with-device-number", ["C15"], P + "scsi_device.py",
+      "    return os.stat(file).st_ino", "    st = os.stat(file)\n    return (st.st_dev << 32) | st.st_ino",
+      note="inode numbers wider than 32 bits collide with the device bits"),
+    V("c15-twin-replug-test-inlined", ["C15"], P + "scsi_device.py",
+      "        if self._detect_replugged and self._is_replugged():", "        if self._detect_replugged and get_inode(self._file_name) != self._ino:",
+      expect="silent", more=[(P + "scsi_device.py", "    def _is_replugged(self):\n        #  type: (SCSIDevice) -> bool\n        ino = get_inode(self._file_name)\n        return ino != self._ino\n\n", "")],
+      note="the replug test written into execute(): decided there"),
+    V("c16-twin-selection-by-table", ["C16", "C14"], P + "scsi.py",
+      """            if self.device.devicetype in (
+                0x00,
+                0x04,
+                0x07,
+            ):  # sbc
+                self.device.opcodes = sbc
+            elif self.device.devicetype in (0x01, 0x02, 0x09):  # ssc
+                self.device.opcodes = ssc
+            elif self.device.devicetype in (0x03,):  # spc
+                self.device.opcodes = spc
+            elif self.device.devicetype in (0x08,):  # smc
+                self.device.opcodes = smc
+            elif self.device.devicetype in (0x05,):  # mmc
+                self.device.opcodes = mmc
+""",
+      """            by_type = {0x00: sbc, 0x04: sbc, 0x07: sbc, 0x01: ssc, 0x02: ssc, 0x09: ssc, 0x03: spc, 0x08: smc, 0x05: mmc}
+            if self.device.devicetype in by_type:
+                self.device.opcodes = by_type[self.device.devicetype]
+""", expect="silent", note="the same selection written as a table lookup"),
+    V("c07-twin-status-local-variable", ["C07", "C03"], "pyscsi/pyiscsi/iscsi_device.py",
+      "        if task.status == scsi_enum_command.SCSI_STATUS.CHECK_CONDITION:",
+      "        status = task.status\n        if status == scsi_enum_command.SCSI_STATUS.CHECK_CONDITION:", expect="silent",
+      more=[("pyscsi/pyiscsi/iscsi_device.py", "        if task.status == scsi_enum_command.SCSI_STATUS.GOOD:", "        if status == scsi_enum_command.SCSI_STATUS.GOOD:"),
+            ("pyscsi/pyiscsi/iscsi_device.py", "        if task.status == scsi_enum_command.SCSI_STATUS.BUSY:", "        if status == scsi_enum_command.SCSI_STATUS.BUSY:")],
+      note="the status read once into a local"),
+    V("c07-twin-status-table", ["C07"], "pyscsi/pyiscsi/iscsi_device.py",
+      """        if task.status == scsi_enum_command.SCSI_STATUS.RESERVATION_CONFLICT:
+            raise self.ReservationConflict()
+        if task.status == scsi_enum_command.SCSI_STATUS.TASK_ABORTED:
+            raise self.TaskAborted()
+""",
+      """        for st, exc in ((scsi_enum_command.SCSI_STATUS.RESERVATION_CONFLICT, self.ReservationConflict),
+                        (scsi_enum_command.SCSI_STATUS.TASK_ABORTED, self.TaskAborted)):
+            if task.status == st:
+                raise exc()
+""", expect="silent", note="two of the status tests written as a loop over (status, exception) pairs"),
+    V("c17-twin-blocksize-guard-helper", ["C17", "C01", "C03"], P + "scsi_cdb_read10.py",
+      "        if blocksize == 0:\n            raise SCSICommand.MissingBlocksizeException\n",
+      "        self._need_blocksize(blocksize)\n", expect="silent",
+      more=[(P + "scsi_cdb_read10.py", "    def __init__(", "    @staticmethod\n    def _need_blocksize(blocksize):\n        if not blocksize:\n            raise SCSICommand.MissingBlocksizeException\n\n    def __init__(")],
+      note="the refusal moved into a helper"),
+    V("c13-twin-facade-helper", ["C13", "C07", "C17", "C16"], P + "scsi.py",
+      """        cmd = ReadCapacity16(opcode=opcode, **kwargs)
+        self.execute(cmd)
+        cmd.unmarshall()
+        return cmd
+""",
+      """        return self._run(ReadCapacity16(opcode=opcode, **kwargs), decode=True)
+""", expect="silent",
+      more=[(P + "scsi.py", "    def __init_opcode(self):", "    def _run(self, cmd, decode=False):\n        self.execute(cmd)\n        if decode:\n            cmd.unmarshall()\n        return cmd\n\n    def __init_opcode(self):")],
+      note="execute + decode + return moved into a private helper of the facade"),
+    V("c01-twin-build-cdb-kwargs-dict", ["C01", "C02", "C13", "C03"], P + "scsi_cdb_read10.py",
+      "self.cdb = self.build_cdb(", "_fields = dict(", expect="silent",
+      more=[(P + "scsi_cdb_read10.py", "            group=group,\n        )", "            group=group,\n        )\n        self.cdb = self.build_cdb(**_fields)")],
+      note="the field values collected in a dictionary first"),
+    V("c11-twin-index-loop", ["C11", "C04", "C06"], P + "scsi_cdb_persistentreservein.py",
+      """        while len(data):
+            key = scsi_ba_to_int(data[:8])
+            data = data[8:]
+            keys.append(key)
+""",
+      """        pos = 0
+        while pos < len(data):
+            key = scsi_ba_to_int(data[pos : pos + 8])
+            pos += 8
+            keys.append(key)
+""", expect="silent", note="the same walk with an index instead of re-slicing: still bounded by len(data)"),
+    V("c11-twin-for-range-len", ["C11", "C04", "C06"], P + "scsi_cdb_persistentreservein.py",
+      """        while len(data):
+            key = scsi_ba_to_int(data[:8])
+            data = data[8:]
+            keys.append(key)
+""",
+      """        for pos in range(0, len(data), 8):
+            keys.append(scsi_ba_to_int(data[pos : pos + 8]))
+""", expect="silent", note="a for loop over range(len(data)): the count is bounded by the buffer, not by its content"),
+    V("c11-twin-index-loop-variable-stride", ["C11", "C04", "C06"], P + "scsi_cdb_inquiry.py",
+      """            while len(data):
+                _bc = data[3] + 4
+
+                _dd = {}
+                convert.decode_bits(data, cls._designator_bits, _dd)
+                if _dd["piv"] == 0 or (
+                    _dd["association"] != 1 and _dd["association"] != 2
+                ):
+                    del _dd["protocol_identifier"]
+                _dd["designator"] = cls.unmarshall_designator(
+                    _dd["designator_type"], data[4 : 4 + data[3]]
+                )
+                _d.append(_dd)
+                data = data[_bc:]
+""",
+      """            pos = 0
+            while pos < len(data):
+                _bc = data[pos + 3] + 4
+
+                _dd = {}
+                convert.decode_bits(data[pos:], cls._designator_bits, _dd)
+                if _dd["piv"] == 0 or (
+                    _dd["association"] != 1 and _dd["association"] != 2
+                ):
+                    del _dd["protocol_identifier"]
+                _dd["designator"] = cls.unmarshall_designator(
+                    _dd["designator_type"], data[pos + 4 : pos + 4 + data[pos + 3]]
+                )
+                _d.append(_dd)
+                pos += _bc
+""", expect="silent", note="the designator walk by index, with the stride read from the descriptor"),
+V("c11-index-loop-zero-stride", ["C11"], P + "scsi_cdb_inquiry.py",
+      """            while len(data):
+                _bc = data[3] + 4
+
+                _dd = {}
+                convert.decode_bits(data, cls._designator_bits, _dd)
+                if _dd["piv"] == 0 or (
+                    _dd["association"] != 1 and _dd["association"] != 2
+                ):
+                    del _dd["protocol_identifier"]
+                _dd["designator"] = cls.unmarshall_designator(
+                    _dd["designator_type"], data[4 : 4 + data[3]]
+                )
+                _d.append(_dd)
+                data = data[_bc:]
+""",
+      """            pos = 0
+            while pos < len(data):
+                _bc = data[pos + 3] + 4
+
+                _dd = {}
+                convert.decode_bits(data[pos:], cls._designator_bits, _dd)
+                if _dd["piv"] == 0 or (
+                    _dd["association"] != 1 and _dd["association"] != 2
+                ):
+                    del _dd["protocol_identifier"]
+                _dd["designator"] = cls.unmarshall_designator(
+                    _dd["designator_type"], data[pos + 4 : pos + 4 + data[pos + 3]]
+                )
+                _d.append(_dd)
+                pos += _bc
+""", rule="loop-has-variant",
+      more=[(P + "scsi_cdb_inquiry.py", "                _bc = data[pos + 3] + 4\n", "                _bc = data[pos + 3]\n")], note="the index walk with a stride that may be zero"),
+    V("c11-index-loop-content-bound", ["C11"], P + "scsi_cdb_persistentreservein.py",
+      """        while len(data):
+            key = scsi_ba_to_int(data[:8])
+            data = data[8:]
+            keys.append(key)
+""",
+      """        pos = 0
+        while pos < additional_length:
+            key = scsi_ba_to_int(data[pos : pos + 8])
+            pos += 8
+            keys.append(key)
+""", rule="loop-has-variant", note="an index walk bounded by the announced length, not by the buffer"),
+    V("c11-twin-index-loop-length-alias", ["C11", "C04"], P + "scsi_cdb_persistentreservein.py",
+      """        while len(data):
+            key = scsi_ba_to_int(data[:8])
+            data = data[8:]
+            keys.append(key)
+""",
+      """        pos, n = 0, len(data)
+        while pos < n:
+            key = scsi_ba_to_int(data[pos : pos + 8])
+            pos += 8
+            keys.append(key)
+""", expect="silent", note="the buffer length taken into a variable first"),
+    V("c08-twin-lookup-try-except", ["C08", "C07"], P + "scsi_sense.py",
+      '        return sense_ascq_dict.get(self._ascq(), "Unknown ASC/ASCQ")',
+      '        try:\n            return sense_ascq_dict[self._ascq()]\n        except KeyError:\n            return "Unknown ASC/ASCQ"', expect="silent",
+      note="the table lookup guarded by try/except instead of dict.get"),
+    V("c08-twin-fstring", ["C08"], P + "scsi_sense.py",
+      '            print("%s -> 0x%02X" % (k, v))', '            print(f"{k} -> 0x{v:02X}")', expect="silent",
+      note="the dump line as an f-string"),
+    V("c08-twin-format-method", ["C08"], P + "scsi_sense.py",
+      """        return "Check Condition: %s(0x%02X) ASC+Q:%s(0x%04X)" % (
+            sense_key_dict.get(sense_key, "Reserved"),
+            sense_key,
+            self._describe_ascq(),
+            self._ascq(),
+        )""",
+      """        return "Check Condition: {}(0x{:02X}) ASC+Q:{}(0x{:04X})".format(
+            sense_key_dict.get(sense_key, "Reserved"),
+            sense_key,
+            self._describe_ascq(),
+            self._ascq(),
+        )""", expect="silent", note="str.format instead of %"),
+    V("c19-twin-importlib", ["C19"], P + "scsi_device.py",
+      "try:\n    import sgio\n\n    _has_sgio = True\nexcept ImportError as e:\n    _has_sgio = False",
+      "import importlib.util\n\n_has_sgio = importlib.util.find_spec(\"sgio\") is not None\nif _has_sgio:\n    import sgio", expect="silent",
+      note="presence decided with importlib.util.find_spec"),
+    V("c08-fstring-wrong-argument", ["C08"], P + "scsi_sense.py",
+      '            print("%s -> 0x%02X" % (k, v))', '            print(f"{v} -> 0x{k:02X}")', rule="format-arguments-fit",
+      note="the dump line as an f-string with the key (a string) under the hexadecimal directive"),
+    V("c08-format-method-swapped", ["C08"], P + "scsi_sense.py",
+      """        return "Check Condition: %s(0x%02X) ASC+Q:%s(0x%04X)" % (
+            sense_key_dict.get(sense_key, "Reserved"),
+            sense_key,
+            self._describe_ascq(),
+            self._ascq(),
+        )""",
+      """        return "Check Condition: {}(0x{:02X}) ASC+Q:{}(0x{:04X})".format(
+            sense_key,
+            sense_key_dict.get(sense_key, "Reserved"),
+            self._describe_ascq(),
+            self._ascq(),
+        )""", rule="format-arguments-fit", note="str.format with the text under the hexadecimal directive"),
+    V("c19-twin-flag-renamed", ["C19", "C15", "C03"], P + "scsi_device.py",
+      "    _has_sgio = True\n", "    HAVE_SGIO = True\n", expect="silent",
+      more=[(P + "scsi_device.py", "    _has_sgio = False\n", "    HAVE_SGIO = False\n"),
+            (P + "scsi_device.py", "        if _has_sgio and device[:5] == \"/dev/\":", "        if HAVE_SGIO and device[:5] == \"/dev/\":")],
+      note="the module-level presence flag under another name"),
+    V("c19-twin-lazy-import", ["C19"], P + "scsi_device.py",
+      "try:\n    import sgio\n\n    _has_sgio = True\nexcept ImportError as e:\n    _has_sgio = False",
+      "try:\n    import sgio\nexcept ImportError:\n    sgio = None\n_has_sgio = sgio is not None", expect="silent",
+      note="the binding module itself as the presence test"),
+    V("c06-twin-marshaller-preallocates", ["C06", "C04"], P + "scsi_cdb_getlbastatus.py",
+      """        for l in data["lbas"]:
+            _r = bytearray(16)
+            encode_dict(l, cls._datain_bits, _r)
+
+            result += _r
+
+        result[:4] = scsi_int_to_ba(len(result) - 4, 4)
+        return result""",
+      """        n = len(data["lbas"])
+        result = bytearray(8 + 16 * n)
+        for i, l in enumerate(data["lbas"]):
+            _r = bytearray(16)
+            encode_dict(l, cls._datain_bits, _r)
+            result[8 + 16 * i : 24 + 16 * i] = _r
+        result[0:4] = scsi_int_to_ba(4 + 16 * n, 4)
+        return result""", expect="silent", note="the response allocated once and the descriptors stored into their slots"),
+    V("c06-twin-marshaller-joins", ["C06", "C04"], P + "scsi_cdb_report_luns.py",
+      """        for _count, l in enumerate(data["luns"]):
+            _r = bytearray(8)
+            encode_dict({"lun": l["lun%s" % _count]}, cls._datain_bits, _r)
+
+            result += _r
+        result[:4] = scsi_int_to_ba(len(result) - 8, 4)
+        return result""",
+      """        chunks = []
+        for _count, l in enumerate(data["luns"]):
+            _r = bytearray(8)
+            encode_dict({"lun": l["lun%s" % _count]}, cls._datain_bits, _r)
+            chunks.append(_r)
+        body = b"".join(chunks)
+        return bytearray(scsi_int_to_ba(len(body), 4)) + bytearray(4) + body""", expect="silent",
+      note="the LUN list assembled with join and the header prepended"),
+    V("c03-twin-execute-args-tuple", ["C03", "C07", "C13", "C15"], P + "scsi_device.py",
+      "            sgio.execute(self._file, cmd.cdb, cmd.dataout, cmd.datain)",
+      "            args = (self._file, cmd.cdb, cmd.dataout, cmd.datain)\n            sgio.execute(*args)", expect="silent",
+      note="the hand-over through an argument tuple"),
+    V("c07-twin-raise-from", ["C07", "C03"], P + "scsi_device.py",
+      "                raise self.CheckCondition(error.sense)", "                raise self.CheckCondition(error.sense) from error", expect="silent",
+      note="exception chaining"),
+    V("c07-twin-sense-local", ["C07"], P + "scsi_device.py",
+      "            if en_raw_sense:\n                cmd.raw_sense_data = error.sense\n            else:\n                raise self.CheckCondition(error.sense)",
+      "            sense = error.sense\n            if not en_raw_sense:\n                raise self.CheckCondition(sense)\n            cmd.raw_sense_data = sense", expect="silent",
+      note="the two branches in the other order, the sense in a local"),
+    V("c02-twin-entries-as-tuples", ["C01", "C02", "C13", "C09"], P + "scsi_cdb_read10.py",
+      '"lba": [0xFFFFFFFF, 2]', '"lba": (0xFFFFFFFF, 2)', expect="silent",
+      more=[(P + "scsi_cdb_read10.py", '"tl": [0xFFFF, 7]', '"tl": (0xFFFF, 7)'),
+            (P + "scsi_cdb_read10.py", '"dpo": [0x10, 1]', '"dpo": (1 << 4, 1)')],
+      note="table entries as tuples, one mask written as a shift"),
 ]
